@@ -8,8 +8,8 @@ from fractions import Fraction
 UNIT = 2329089562800     # lcm(1..30)
 
 
-def value(m, scale, pyint):
-    v = Fraction(m * UNIT) * (Fraction(2) ** scale)
+def value(m, scale, pyint, unit=UNIT):
+    v = Fraction(m * unit) * (Fraction(2) ** scale)
     if pyint:
         assert v.denominator == 1
         return int(v)
@@ -25,10 +25,10 @@ def coef(txt, as_int):
 
 def build(c):
     names = c['names'] + c.get('foreign', [])
-    sc, pi = c['scale'], c.get('pyint', False)
-    rel = {c['names'][i]: value(m, sc, pi) for i, m in enumerate(c['rel'])}
-    red = {(names[a], names[b]): value(m, sc, pi) for a, b, m in c['red']}
-    rln = {(names[a], names[b]): value(m, sc, pi) for a, b, m in c['rln']}
+    sc, pi, u = c['scale'], c.get('pyint', False), c.get('unit', UNIT)
+    rel = {c['names'][i]: value(m, sc, pi, u) for i, m in enumerate(c['rel'])}
+    red = {(names[a], names[b]): value(m, sc, pi, u) for a, b, m in c['red']}
+    rln = {(names[a], names[b]): value(m, sc, pi, u) for a, b, m in c['rln']}
     return rel, red, rln, coef(c['alpha'], c.get('coef_int', False)), coef(c['beta'], c.get('coef_int', False))
 
 
